@@ -146,6 +146,8 @@ structure Body where
   maxApdu : Nat := 0             -- self.maxApduLengthAccepted (server: the client's)
   maxSegs : Option Nat := none   -- self.maxSegmentsAccepted (server: the client's)
   sra : Bool := false            -- segmented_response_accepted
+  announced : Nat := 0           -- HISTORY VARIABLE (not Python state, read by no handler): the maximum
+                                 --   APDU the request that opened a server transaction announced
   timer : Option Nat := none     -- absolute due time (µs) of the scheduled task
 deriving DecidableEq, Repr, Inhabited
 
